@@ -162,6 +162,21 @@ impl<S: State> Spectrum<S> {
             });
         }
 
+        // An empty spectrum (some axis has length zero) may declare absurdly long other axes: the
+        // marginalized spectrum must be addressable, and there is nothing to sum over
+        let shape = (0..self.dimensions())
+            .filter(|i| !axes.contains(&Axis(*i)))
+            .map(|i| self.shape()[i])
+            .collect::<Vec<_>>();
+        let max_elements = isize::MAX as usize / std::mem::size_of::<f64>();
+        match shape.iter().try_fold(1usize, |acc, &n| acc.checked_mul(n)) {
+            Some(elements) if elements <= max_elements => (),
+            _ => return Err(MarginalizationError::TooLarge { shape }),
+        }
+        if self.elements() == 0 {
+            return Ok(Scs::from_zeros(shape).into_state_unchecked());
+        }
+
         let is_sorted = axes.windows(2).all(|w| w[0] <= w[1]);
         if is_sorted {
             Ok(self.marginalize_unchecked(axes))
@@ -513,6 +528,11 @@ pub enum MarginalizationError {
         /// The number of dimensions in the spectrum.
         dimensions: usize,
     },
+    /// The marginalized spectrum would have too many elements to be addressed.
+    TooLarge {
+        /// The shape of the marginalized spectrum.
+        shape: Vec<usize>,
+    },
 }
 
 impl fmt::Display for MarginalizationError {
@@ -528,6 +548,15 @@ impl fmt::Display for MarginalizationError {
             MarginalizationError::TooManyAxes { axes, dimensions } => write!(
                 f,
                 "cannot marginalize a total of {axes} axes in spectrum with {dimensions} dimensions"
+            ),
+            MarginalizationError::TooLarge { shape } => write!(
+                f,
+                "cannot marginalize to a spectrum with shape {}: too many elements",
+                shape
+                    .iter()
+                    .map(|n| n.to_string())
+                    .collect::<Vec<_>>()
+                    .join("/")
             ),
         }
     }
